@@ -91,6 +91,22 @@ theorem turn_total' (a : Int) (h1 : -180 ≤ a) (h2 : a ≤ 180) : (turnOfAngle 
     simp only [Int.toNat_of_nonneg (by omega : 0 ≤ a + 180)]; omega
   rw [e] at h; exact h
 
+/-- **every** angle outside [-180, 180] is rejected (the table's ranges all lie inside): in particular
+the difference of two headings far outside [0, 360) — the loader accepts any `i16`, and since /repo
+a90456f the difference is taken without overflow — is an access error, never an ordinary turn -/
+theorem turn_rejects_every_angle_outside (a : Int) (h : a < -180 ∨ 180 < a) : turnOfAngle a = none := by
+  have hall : turnRanges.all (fun r => decide (-180 ≤ r.1) && decide (r.2.1 ≤ 180)) = true := by
+    decide +kernel
+  unfold turnOfAngle
+  have : turnRanges.find? (fun r => decide (r.1 ≤ a) && decide (a ≤ r.2.1)) = none := by
+    rw [List.find?_eq_none]
+    intro r hr
+    have := List.all_eq_true.mp hall r hr
+    simp only [Bool.and_eq_true, decide_eq_true_eq] at this
+    simp only [Bool.and_eq_true, decide_eq_true_eq, not_and]
+    omega
+  rw [this]
+
 /-- angles outside [-180, 180] are rejected -/
 theorem turn_rejects_outside : turnOfAngle 181 = none ∧ turnOfAngle (-181) = none := by decide +kernel
 
